@@ -25,12 +25,15 @@ type RunConfig struct {
 	Pool       chan *solver.Proc
 	SolverKind string
 	XCheckEvery int
+	RandomPick  float64
+	Seed        int64
 }
 
 // Run explores all paths of harness function fn.
 func Run(p *Program, fn *ssa.Function, prop string, cfg RunConfig) *Explorer {
 	ex := NewExplorer()
 	ex.MaxPaths = cfg.MaxPaths
+	ex.RandomPick, ex.Seed = cfg.RandomPick, cfg.Seed
 	if cfg.Deadline > 0 {
 		ex.Deadline = time.Now().Add(cfg.Deadline)
 	}
